@@ -30,6 +30,8 @@ pub static mut HEAD: usize = 0;
 pub static mut TAIL: usize = 0;
 pub static mut AMBIG: bool = false;
 pub static mut OVERFLOW: bool = false;
+/// the written text uses something the scripted tokens do not model (comment lines, long runs of blanks)
+pub static mut UNSUPPORTED: bool = false;
 
 pub fn capturing() -> bool {
     unsafe { CAPTURE }
@@ -42,6 +44,7 @@ pub fn start_capture() {
         TAIL = 0;
         AMBIG = false;
         OVERFLOW = false;
+        UNSUPPORTED = false;
     }
 }
 
@@ -203,8 +206,19 @@ pub fn take_bin() -> Option<u64> {
     }
 }
 
+/// The writers separate tokens by single blanks; the scripted tokens eat up to two (loop-free, so
+/// that the parser's own loops stay cheap). A longer run of blanks is left in the queue and makes
+/// the round-trip harness fail its exact-consumption check instead of being silently accepted.
 pub fn skip_blanks() {
-    while next_is_byte(b' ') || next_is_byte(b'\t') {
+    if next_is_byte(b' ') || next_is_byte(b'\t') {
         pop();
+    }
+    if next_is_byte(b' ') || next_is_byte(b'\t') {
+        pop();
+    }
+    if next_is_byte(b' ') || next_is_byte(b'\t') {
+        unsafe {
+            UNSUPPORTED = true;
+        }
     }
 }
